@@ -2,6 +2,7 @@
 stdin: {"order":…, "tables": {cls: {"ea":[[py,xml,kind,guard_default_text|null]], "ek":[[py,tag,kind,cls]]}}, "cases":[trees], "files":[paths], "seed":n}"""
 import io
 import json
+import re
 import os
 import random
 import shutil
@@ -150,6 +151,30 @@ def variants(text, dumped):
                         n_sp += 1
         if n_sp:
             outs.append(("number-spelling", etree.tostring(root, encoding="unicode")))
+    # 7. namespace prefixes: the whole document under a prefix, and a prefix declared locally on some leaf elements
+    #    (raw annotation content is kept as serialised text, prefixes included, so documents with annotations are skipped)
+    if "<annotation" not in text:
+        root = fresh()
+        new = etree.Element(root.tag, nsmap=dict([("n", NS)] + [(k, v) for k, v in root.nsmap.items() if k]))
+        new.text = root.text
+        for k, v in root.attrib.items():
+            new.set(k, v)
+        for ch in list(root):
+            new.append(ch)
+        etree.cleanup_namespaces(new)
+        pt = etree.tostring(new, encoding="unicode")
+        if "<n:" in pt:
+            outs.append(("namespace-prefix", pt))
+        cnt = [0]
+
+        def loc(m):
+            if rng.random() < 0.5 or m.group(1).startswith("?"):
+                return m.group(0)
+            cnt[0] += 1
+            return '<q%d:%s xmlns:q%d="%s"%s/>' % (cnt[0] % 2, m.group(1), cnt[0] % 2, NS, m.group(2))
+        lt = re.sub(r"<([A-Za-z_][\w.-]*)((?:\s[^<>]*?)?)/>", loc, text)
+        if cnt[0]:
+            outs.append(("namespace-prefix-local", lt))
     # 6. XML declaration + single quotes are exercised through "compact"/lxml serialisation; add a declaration
     if not text.lstrip().startswith("<?xml"):
         outs.append(("xml-declaration", '<?xml version="1.0" encoding="UTF-8"?>\n<!-- leading comment -->\n' + text))
@@ -203,6 +228,22 @@ try:
                         entry["diff"] = diff
                         entry["text"] = vt[:1500]
                     r["variants"].append(entry)
+                    if name.startswith("namespace-prefix") and same:
+                        # a document loaded from prefixed text must itself be a load/write fixed point
+                        cur = NeuroMLLoader.load(vf)
+                        texts, dumps = [], []
+                        for i in range(2):
+                            cf = os.path.join(d, "pcyc%d.nml" % i)
+                            NeuroMLWriter.write(cur, cf)
+                            texts.append(open(cf).read())
+                            cur = NeuroMLLoader.load(cf)
+                            dumps.append(gds_impl.dump(cur))
+                        ok = dumps[0] == dumps[1] == base and texts[0] == texts[1]
+                        e2 = {"name": name + ":write-reload", "same": ok}
+                        if not ok:
+                            e2["diff"] = ["document differs after write/reload" if dumps[0] != base else "bytes not stable"]
+                            e2["text"] = vt[:1500]
+                        r["variants"].append(e2)
                 except Exception as e:  # noqa
                     r["variants"].append({"name": name, "same": False, "err": type(e).__name__ + ": " + str(e)[:300], "text": vt[:1500]})
         except Exception as e:  # noqa
